@@ -8,7 +8,9 @@ import (
 	"os"
 	"strconv"
 	"strings"
+	"sync"
 	"time"
+	"unicode"
 
 	"github.com/rogpeppe/go-internal/imports"
 
@@ -64,7 +66,71 @@ func implRI(x []byte, report bool) riOut {
 		out, err := imports.ReadImports(bytes.NewReader(x), report, &imps)
 		o.imps, o.out, o.e = imps, out, errKind(err)
 	})
+	if !o.hung && !o.panicked {
+		rememberAndVerify(x, o)
+	}
 	return o
+}
+
+// ---- results must stay what they were when returned: the last K results (the very slices
+// ReadImports returned) are kept with a copy taken at return time and re-verified after every
+// later call, from whatever goroutine.
+
+type keptResult struct {
+	x, out, outCopy []byte
+	imps, impsCopy  []string
+}
+type stabilityFailure struct {
+	earlier, later []byte
+	detail         string
+}
+
+var (
+	keptMu       sync.Mutex
+	keptRing     []keptResult
+	stabilityBad []stabilityFailure
+)
+
+const keptK = 8
+
+func rememberAndVerify(x []byte, o riOut) {
+	keptMu.Lock()
+	defer keptMu.Unlock()
+	for _, k := range keptRing {
+		why := ""
+		switch {
+		case !bytes.Equal(k.out, k.outCopy):
+			why = fmt.Sprintf("bytes returned earlier changed from %q to %q", clipN(string(k.outCopy), 80), clipN(string(k.out), 80))
+		case fmt.Sprint(k.imps) != fmt.Sprint(k.impsCopy):
+			why = fmt.Sprintf("imports returned earlier changed from %q to %q", k.impsCopy, k.imps)
+		case !bytes.HasPrefix(sansBOM(k.x), k.out) && !bytes.HasPrefix(k.x, k.out):
+			why = "bytes returned earlier are no longer a prefix of their input"
+		}
+		if why != "" && len(stabilityBad) < 4 {
+			stabilityBad = append(stabilityBad, stabilityFailure{append([]byte{}, k.x...), append([]byte{}, x...), why})
+		}
+	}
+	if len(stabilityBad) > 0 {
+		keptRing = nil // report once, start afresh
+	}
+	keptRing = append(keptRing, keptResult{x: append([]byte{}, x...), out: o.out, outCopy: append([]byte{}, o.out...),
+		imps: o.imps, impsCopy: append([]string{}, o.imps...)})
+	if len(keptRing) > keptK {
+		keptRing = keptRing[1:]
+	}
+}
+
+// concurrentBurst calls ReadImports on several inputs from several goroutines at once.
+func concurrentBurst(xs [][]byte) {
+	var wg sync.WaitGroup
+	for i, x := range xs {
+		wg.Add(1)
+		go func(i int, x []byte) {
+			defer wg.Done()
+			implRI(x, i%2 == 0)
+		}(i, x)
+	}
+	wg.Wait()
 }
 
 func implRC(x []byte) riOut {
@@ -213,7 +279,53 @@ var oraclesC18 = []string{"no-panic/terminates", "output-is-prefix", "no-report-
 
 type gen18 struct{ r *common.RNG }
 
-var identAtoms = []string{"p", "main", "x", "_x", "a1", "é", "Ünï", "foo_bar", "imports", "i", "importx", "_"}
+var identAtoms = append([]string{"p", "main", "x", "_x", "a1", "é", "Ünï", "foo_bar", "imports", "i", "importx", "_"}, unicodeIdents()...)
+
+// unicodeIdents: identifiers made of letters chosen so that, together, their UTF-8 encodings use
+// every continuation byte value 0x80..0xBF in every position and every lead byte that starts a
+// letter (C2..F0; no letters are encoded with F1..F4).  isIdent must accept all of these bytes.
+func unicodeIdents() []string {
+	type key struct{ pos, val int }
+	need := map[key]bool{}
+	for v := 0x80; v <= 0xbf; v++ {
+		for pos := 1; pos <= 3; pos++ {
+			need[key{pos, v}] = true
+		}
+	}
+	for l := 0xc2; l <= 0xf0; l++ {
+		need[key{0, l}] = true
+	}
+	var out []string
+	for r := rune(0x80); r <= 0x3ffff && len(need) > 0; r++ {
+		if !unicode.IsLetter(r) {
+			continue
+		}
+		e := string(r)
+		useful := false
+		for i := 0; i < len(e); i++ {
+			k := key{i, int(e[i])}
+			if i > 0 && len(e)-i > 3 {
+				continue
+			}
+			if need[k] {
+				useful = true
+				delete(need, k)
+			}
+		}
+		if useful {
+			switch len(out) % 3 {
+			case 0:
+				out = append(out, e)
+			case 1:
+				out = append(out, "x"+e+"1")
+			default:
+				out = append(out, e+e)
+			}
+		}
+	}
+	return out
+}
+
 var pathAtoms = []string{"fmt", "os", "a/b", "x.y/z-w", "github.com/a/b", "a", "golang.org/x/tools/txtar", "é/ü", "a_b", "0"}
 
 var restAtoms = []string{"", "func f() {}\n", "var x = 1\n", "type T int\n", "const c = \"import\"\n", "func init() { println(\"import (\") }\n",
@@ -264,6 +376,8 @@ func genRaw(r *common.RNG) []byte {
 // ---------------------------------------------------------------- cases
 
 const modelMaxLen = 3000
+
+var recentC18 [][]byte
 
 func (rn *runner) caseC18(x []byte, src string, expect []string) {
 	rn.seen++
@@ -320,6 +434,24 @@ func (rn *runner) caseC18(x []byte, src string, expect []string) {
 			}
 		}
 	}
+	recentC18 = append(recentC18, x)
+	if len(recentC18) > 6 {
+		recentC18 = recentC18[1:]
+	}
+	if rn.seen%64 == 0 {
+		concurrentBurst(recentC18)
+		res.Count("multi-call:concurrent-bursts")
+	}
+	keptMu.Lock()
+	bad := stabilityBad
+	stabilityBad = nil
+	keptMu.Unlock()
+	for _, b := range bad {
+		res.Count("oracle-fails:ReadImports/result-stable-across-calls")
+		rn.violate("ReadImports/result-stable-across-calls", b.earlier,
+			map[string]string{"fn": "ReadImports-two-calls", "x2": common.Hex(b.later), "x2_text": clipN(fmt.Sprintf("%q", b.later), 300)},
+			b.detail, "a result stays byte-identical after later calls", "the result of ReadImports(x) was changed by a later ReadImports(x2)", nil)
+	}
 	if rn.seen%2503 == 1 {
 		res.Sample(map[string]any{"input": clip(string(x)), "impl": clip(o1.show()), "source": src, "go/parser accepts": okp})
 	}
@@ -363,6 +495,10 @@ func runC18(rn *runner) {
 			}})
 		} else if err == nil {
 			rn.caseC18(common.UnHex(rp.Violation.Input["x"]), "replay", nil)
+			if x2, ok := rp.Violation.Input["x2"]; ok {
+				rn.caseC18(common.UnHex(x2), "replay", nil)
+				rn.caseC18(common.UnHex(rp.Violation.Input["x"]), "replay", nil)
+			}
 		} else {
 			res.Notes = append(res.Notes, "cannot load replay: "+err.Error())
 		}
@@ -455,6 +591,6 @@ func runC18(rn *runner) {
 	runScan(rn, nDirs)
 	runUnquote(rn, nUq)
 	res.Exhaustive = false
-	res.Rule = fmt.Sprintf("corpus; %d hand-written inputs, each also with a BOM in front; %d grammar-based Go files (optional BOM, trivia = blanks/newlines/semicolons/line and block comments, package clause, 0-3 import declarations single or grouped, specs plain/named/./_, raw, interpreted and escaped path literals, followed by declarations), every one generated as an abstract section of the Coq grammar G, found well-formed (wf_section) and rendered to the same bytes with the same paths by the extracted model, and validated by go/parser (accepted, same import literals); %d byte-level mutations of such files; %d random token/byte soups (NUL, partial BOM, unterminated strings and comments); large inputs (600-3000 single/grouped/aliased imports, 50k-byte comments, path strings and identifiers, 20k blank lines / semicolons before and between imports, 20k-60k byte unterminated strings and comments) on the direct oracles only (the model is asked for inputs up to %d bytes). Non-trivial: go/parser accepts, or the reader reports imports or an error. Oracles: no panic / termination under a 20 s watchdog; output is a prefix of the input (BOM aside); syntax error with report=true => whole input and nil error with report=false (NUL error allowed when the input contains NUL); whenever go/parser accepts the input, same unquoted import paths in order with a nil error, and the returned prefix parses (ImportsOnly) to the same imports. Consumers: "+scanRule+" strconv.Unquote against the model's unquote on all pairs of an escape/UTF-8 atom vocabulary and on generated literals.",
+	res.Rule = fmt.Sprintf("corpus; %d hand-written inputs, each also with a BOM in front; %d grammar-based Go files (optional BOM, trivia = blanks/newlines/semicolons/line and block comments, package clause, 0-3 import declarations single or grouped, specs plain/named/./_, raw, interpreted and escaped path literals, followed by declarations), every one generated as an abstract section of the Coq grammar G, found well-formed (wf_section) and rendered to the same bytes with the same paths by the extracted model, and validated by go/parser (accepted, same import literals); %d byte-level mutations of such files; %d random token/byte soups (NUL, partial BOM, unterminated strings and comments); large inputs (600-3000 single/grouped/aliased imports, 50k-byte comments, path strings and identifiers, 20k blank lines / semicolons before and between imports, 20k-60k byte unterminated strings and comments) on the direct oracles only (the model is asked for inputs up to %d bytes). Non-trivial: go/parser accepts, or the reader reports imports or an error. Oracles: no panic / termination under a 20 s watchdog; the last 8 results (the returned slices themselves) stay byte-identical and prefixes of their inputs after every later call, including bursts of concurrent calls; output is a prefix of the input (BOM aside); syntax error with report=true => whole input and nil error with report=false (NUL error allowed when the input contains NUL); whenever go/parser accepts the input, same unquoted import paths in order with a nil error, and the returned prefix parses (ImportsOnly) to the same imports. Consumers: "+scanRule+" strconv.Unquote against the model's unquote on all pairs of an escape/UTF-8 atom vocabulary and on generated literals.",
 		len(handC18), nGen, nMut, nRaw, modelMaxLen)
 }
